@@ -54,6 +54,7 @@ def run(ctx):
     specs = util.corpus(ctx.prop) + gen.gen_many(ctx.seed, n, CFG, 'c04_')
     util.add_split(specs)
     specs += util.orderbook_tail_specs(ctx.seed, 10 if ctx.tier == 'quick' else 60, 'c04ob_')
+    specs = ctx.specs(specs)
     res = C.run_impl('portfolio', specs)
     exprs, owners = [], []
     for sp, o in zip(specs, res):
